@@ -224,6 +224,15 @@ func (ww *conversionVisitor) visitObjectNode(node *sourcewalk.ObjectNode) {
 				ww.addError(node.Source, err)
 			}
 
+			if propertyDesc.GetProto3Optional() {
+				// A proto3 optional field is the only member of a synthetic
+				// oneof, which is what gives the field presence.
+				propertyDesc.OneofIndex = gl.Ptr(int32(len(message.descriptor.OneofDecl)))
+				message.descriptor.OneofDecl = append(message.descriptor.OneofDecl, &descriptorpb.OneofDescriptorProto{
+					Name: gl.Ptr("_" + propertyDesc.GetName()),
+				})
+			}
+
 			// Take the index (prior to append len == index), not the field number
 			locPath := []int32{2, int32(len(message.descriptor.Field))}
 			message.comment(locPath, node.Schema.Description)
